@@ -386,6 +386,9 @@ fn classify(m: &str) -> &'static str {
         "Consistency"
     } else if m.contains("Final polynomial") {
         "Final"
+    } else if m.contains("Condition failed") {
+        // the only other message-less ensure!s are those of validate_fri_proof_shape
+        "Shape"
     } else {
         "Other"
     }
@@ -705,6 +708,15 @@ fn run_case(id: usize, cfg: &Cfg, r: &mut ChaCha8Rng) -> Value {
         p.final_poly.coeffs[t] += rfe(r);
         rec.push("final_edit", "fixed", json!({"index": t}), all_hit(0), verify(&w, &w.openings, &ch, &w.caps, &p));
     }
+    // shape of the final polynomial: one zero coefficient appended / the last coefficient dropped
+    {
+        let mut p = proof.clone();
+        p.final_poly.coeffs.push(FE::ZERO);
+        rec.push("final_extend", "fixed", json!({"len": p.final_poly.len()}), all_hit(0), verify(&w, &w.openings, &ch, &w.caps, &p));
+        let mut p = proof.clone();
+        p.final_poly.coeffs.pop();
+        rec.push("final_truncate", "fixed", json!({"len": p.final_poly.len()}), all_hit(0), verify(&w, &w.openings, &ch, &w.caps, &p));
+    }
     // proof of work response
     if cfg.pow > 0 {
         let mut c2 = clone_chal(&ch);
@@ -978,6 +990,57 @@ fn run_case(id: usize, cfg: &Cfg, r: &mut ChaCha8Rng) -> Value {
         });
         let (v, _) = fs_verdict(pr, &chh, &op, &caps);
         rec.push(kind, "fs", json!({"oracle": o, "poly": pi, "degree": deg, "n": 1usize << cfg.db}), all_hit(0), v);
+    }
+    // polynomials of 2^e times the allowed degree: the real prover run with (degree_bits + e, rate_bits - e)
+    // -- same LDE domain, same trees, same schedule -- on the verifier's transcript; the verifier keeps the
+    // original parameters.  The final polynomial is the true fold and has 2^e times too many coefficients.
+    for e in 1..=2usize {
+        if cfg.rb < e {
+            continue;
+        }
+        let res = guarded(|| {
+            let n2 = 1usize << (cfg.db + e);
+            let oracles2: Vec<PolynomialBatch<F, C, D>> = cfg
+                .oracles
+                .iter()
+                .map(|&(np, bl)| {
+                    let polys = (0..np).map(|_| PolynomialCoeffs::new((0..n2).map(|_| rf(r)).collect())).collect();
+                    commit_oracle(polys, cfg.rb - e, bl && cfg.hiding, cfg.cap)
+                })
+                .collect();
+            let op2 = FriOpenings {
+                batches: w
+                    .instance
+                    .batches
+                    .iter()
+                    .map(|b| FriOpeningBatch {
+                        values: b.polynomials.iter().map(|p| oracles2[p.oracle_index].polynomials[p.polynomial_index].to_extension::<D>().eval(b.point)).collect(),
+                    })
+                    .collect(),
+            };
+            let caps2: Vec<Cap> = oracles2.iter().map(|o| o.merkle_tree.cap.clone()).collect();
+            let mut c = Challenger::<F, H>::new();
+            w.params.observe(&mut c); // the verifier's parameters
+            for cp in &caps2 {
+                c.observe_cap(cp);
+            }
+            for b in &w.instance.batches {
+                c.observe_extension_element::<D>(&b.point);
+            }
+            c.observe_openings(&op2);
+            let cv = c.clone();
+            let mut cfg2 = w.params.config.clone();
+            cfg2.rate_bits = cfg.rb - e;
+            let params2 = FriParams { config: cfg2, hiding: cfg.hiding, degree_bits: cfg.db + e, reduction_arity_bits: bits.clone() };
+            let refs2: Vec<&PolynomialBatch<F, C, D>> = oracles2.iter().collect();
+            let p = PolynomialBatch::<F, C, D>::prove_openings(&w.instance, &refs2, &mut c, &params2, None, None, &mut TimingTree::default());
+            let chal = challenges_for(&cv, &p, &w);
+            (p.final_poly.len(), verify(&w, &op2, &chal, &caps2, &p))
+        });
+        match res {
+            Ok((len, v)) => rec.push("degree_scaled", "fs", json!({"e": e, "final_len": len, "final_len_params": params.final_poly_len()}), all_hit(0), v),
+            Err(m) => rec.push("degree_scaled", "fs", json!({"e": e}), all_hit(0), Verdict::Panic(format!("prover: {m}"))),
+        }
     }
     out["devs"] = Value::Array(rec.devs);
     out
@@ -1262,6 +1325,14 @@ fn batch_case(id: usize, r: &mut ChaCha8Rng) -> Value {
             rec.push("layer_cap", "fixed", json!({"layer": l, "last": last, "cap_index": ci, "path_len": pl}), cls, ver(&openings, &chal, &p));
         }
     }
+    {
+        let mut p = proof.clone();
+        p.final_poly.coeffs.push(FE::ZERO);
+        rec.push("final_extend", "fixed", json!({"len": p.final_poly.len()}), all_hit(), ver(&openings, &chal, &p));
+        let mut p = proof.clone();
+        p.final_poly.coeffs.pop();
+        rec.push("final_truncate", "fixed", json!({"len": p.final_poly.len()}), all_hit(), ver(&openings, &chal, &p));
+    }
     // single query: sibling value of the last layer changed, final polynomial forged (see run_case)
     if nl > 0 && q == 1 {
         let l = nl - 1;
@@ -1342,6 +1413,57 @@ fn batch_case(id: usize, r: &mut ChaCha8Rng) -> Value {
         };
         let jl = join_layer(i);
         rec.push("claim_wrong_consistent", "fs", json!({"instance": i, "join": jl, "last": jl == nl}), all_hit(), v);
+    }
+    // polynomials of 2^e times the allowed degree in every class (see run_case)
+    for e in 1..=2usize {
+        if rb < e {
+            continue;
+        }
+        let res = guarded(|| {
+            let mut values2 = vec![];
+            for (d, &c) in degs.iter().zip(&counts) {
+                for _ in 0..c {
+                    values2.push(PolynomialValues::new((0..(1usize << (d + e))).map(|_| rf(r)).collect()));
+                }
+            }
+            let oracle2 = BatchFriOracle::<F, C, D>::from_values(values2, rb - e, false, cap, &mut TimingTree::default(), &vec![None; npolys]);
+            let ops2: Vec<FriOpenings<F, D>> = instances
+                .iter()
+                .map(|inst| FriOpenings {
+                    batches: inst
+                        .batches
+                        .iter()
+                        .map(|b| FriOpeningBatch { values: b.polynomials.iter().map(|p| oracle2.polynomials[p.polynomial_index].to_extension::<D>().eval(b.point)).collect() })
+                        .collect(),
+                })
+                .collect();
+            let cap2 = oracle2.batch_merkle_tree.cap.clone();
+            let mut c = Challenger::<F, H>::new();
+            c.observe_cap(&cap2);
+            for z in &points {
+                c.observe_extension_element::<D>(z);
+            }
+            for o in &ops2 {
+                c.observe_openings(o);
+            }
+            let mut cv = c.clone();
+            let mut cfg2 = params.config.clone();
+            cfg2.rate_bits = rb - e;
+            let params2 = FriParams { config: cfg2, hiding: false, degree_bits: k0 + e, reduction_arity_bits: bits.clone() };
+            let degs2: Vec<usize> = degs.iter().map(|d| d + e).collect();
+            let p = BatchFriOracle::<F, C, D>::prove_openings(&degs2, &instances, &[&oracle2], &mut c, &params2, &mut TimingTree::default());
+            let ch2 = cv.fri_challenges::<C, D>(&p.commit_phase_merkle_caps, &p.final_poly, p.pow_witness, k0, &params.config, None, None);
+            let v = match guarded(|| verify_batch_fri_proof::<F, C, D>(&degs, &instances, &ops2, &ch2, &[cap2.clone()], &p, &params)) {
+                Ok(Ok(())) => Verdict::Accept,
+                Ok(Err(er)) => Verdict::Reject(format!("{er}")),
+                Err(m) => Verdict::Panic(m),
+            };
+            (p.final_poly.len(), v)
+        });
+        match res {
+            Ok((len, v)) => rec.push("degree_scaled", "fs", json!({"e": e, "final_len": len, "final_len_params": params.final_poly_len()}), all_hit(), v),
+            Err(m) => rec.push("degree_scaled", "fs", json!({"e": e}), all_hit(), Verdict::Panic(format!("prover: {m}"))),
+        }
     }
     out["devs"] = Value::Array(rec.devs);
     out
